@@ -65,3 +65,8 @@ claim("C06", "exploration", "Enumerated activation grid (types x response codes)
       "the real code and judged by a reference demultiplexer on the recorded delivery timeline (reads in order / nothing lost, write iff acknowledged within 2 s, alive check answered within 0.5 s). "
       "Exploration over an unbounded sequence space; the activation grid is exhaustive in the thorough tier.",
       "Gateway and TCP modelled at the StreamReader boundary; at most one acknowledgement valid for each write is generated.")
+claim("C08", "fault_enumeration", "Exhaustive enumeration of cut offsets x cut kinds per generated exchange for four transports, at transport and client level, under virtual time with a scripted restartable peer",
+      "For each generated exchange the peer's byte stream is cut at every byte offset with EOF / reset / silence, with and without a caller timeout; transport operations must end in bounded time with "
+      "timeout / connection error / end-of-stream and never return incomplete data; UDSClient with retries and ECU.wait_for_ecu must recover through a reconnect once the peer accepts connections again; "
+      "close() twice is harmless. Fault enumeration: all cut points of each exchange are covered; exchanges themselves are sampled.",
+      "Loss is modelled as what asyncio's stream layer delivers (feed_eof / set_exception + failing writer / nothing); open_connection is patched in the harness process.")
